@@ -156,6 +156,7 @@ def check(ctx):
     score(ctx, N)
     get_kernel(ctx, N)
     user_regressor(ctx)
+    precomputed_and_1d(ctx, N)
     # whole protocols with the real kernel normaliser inlined (V != N)
     for p in protocols.decomposition_protocols():
         if p.name.startswith("KernelPCovR"):
@@ -248,3 +249,43 @@ def user_regressor(ctx):
         ctx.call_method(I, st, o, "fit", arr("X", "N", "M"), arr("Y", "N", "P"))
         raised = [e for e in I.events[lo:] if e["kind"] == "raise" and e.get("short") == "KernelPCovR.fit"]
         ctx.ob("R-REGRESSOR", f"a regressor that is not a KernelRidge ({rc.rsplit('.', 1)[1]}) is rejected", bool(raised) and ctx.attr(st, o, "pkt_") is None, f"raised={len(raised)}", site)
+
+
+def precomputed_and_1d(ctx, N):
+    """kernel='precomputed': the caller's kernel arrays are the kernels (no copy is made
+    by pairwise_kernels), so every reader must leave them untouched; 1-D targets: the
+    regression weights handed to _fit are a 2-D (n_samples, n_targets) array"""
+    P = ctx.P
+    cls = P.cls(KP)
+    for center in (False, True):
+        I = ctx.interp(order=[("K", "<=", "N")], assume=protocols.assume_default)
+        st = State()
+        o = ctx.construct(I, st, cls, mixing=scalar("alpha", 0, 1), n_components=integer("K"), svd_solver="full", center=center, kernel="precomputed")
+        Ktr, Y = arr("Ktrain", "N", "N"), arr("Y", "N", "P")
+        ctx.call_method(I, st, o, "fit", Ktr, Y)
+        for meth, args in (("transform", (arr("Ktest", "V", "N"),)), ("predict", (arr("Ktest", "V", "N"),)), ("fit", (arr("Ktrain2", "N", "N"), arr("Y2", "N", "P")))):
+            lo = len(I.events)
+            ctx.call_method(I, st, o, meth, *args)
+            bad = [e for e in I.events[lo:] if e["kind"] == "mutate" and any(o_[0] == "in" for o_ in e["target"].orig)]
+            ctx.ob("R-PIPE", f"precomputed kernel: {meth} leaves the caller's kernel untouched [center={center}]", not bad, f"in-place ops on caller arrays: {[(e['short'], e['src']) for e in bad]}", ctx.site(P.method(cls, meth)), f"center={center}")
+    for reg in ("default",):
+        got = {}
+
+        def fit_stub(interp, clo, args, kw, st_, node):
+            got["args"] = args
+            h = st_.heap[clo.self_v.obj.id]
+            h["pkt_"] = pc.farr(T("sym", "pkt"), "N", "K")
+            h["pt__"] = pc.farr(T("sym", "ptt"), "K", "N")
+            return vconst(None)
+
+        I = ctx.interp(order=[("K", "<=", "N")], assume=protocols.assume_default, stubs={"KernelPCovR._fit": fit_stub})
+        st = State()
+        o = ctx.construct(I, st, cls, mixing=scalar("alpha", 0, 1), n_components=integer("K"), svd_solver="full")
+        lo = len(I.events)
+        ctx.call_method(I, st, o, "fit", arr("X", "N", "M"), arr("y", "N"))
+        a = got.get("args")
+        site = ctx.site(P.method(cls, "fit"))
+        if ctx.ob("Shape", "1-D targets: _fit receives (K, Yhat, W)", a is not None and len(a) == 3, "", site, "1-D y"):
+            ctx.shape_is("Shape", "1-D targets: W is a 2-D (n_samples, 1) array", a[2], ("N", 1), site, "1-D y")
+            ctx.shape_is("Shape", "1-D targets: Yhat is a 2-D (n_samples, 1) array", a[1], ("N", 1), site, "1-D y")
+        ctx.no_shape_conflicts("Shape", "fit with 1-D targets", I, lo, site, "1-D y")
